@@ -29,7 +29,7 @@ _TF = ["contracts.transform"]
 CONTRACT_MODULES = {
     "C12": ["contracts.c12"],
     "C04": ["contracts.c12"] + _RT + _TF,
-    "C02": _RT + _OV + _IN + _TF, "C16": _RT + _TF, "C01": _RT + _TF, "C06": _TF,
+    "C02": _RT + _OV + _IN + _TF, "C16": _RT + _TF + ["contracts.tags"], "C01": _RT + _TF + ["contracts.tags"], "C06": _TF,
     "C03": _OV + _IN, "C07": _OV + _IN, "C11": _IN + _OV + _TF + ["contracts.tags"], "C05": _OV + _LC, "C09": _OV, "C17": _OV + _LC, "C10": _OV + _LC + _TF, "C14": _LC, "C18": _LC,
 }
 
